@@ -22,18 +22,22 @@ Args(e) ==
 
 ValidCodes(al, k) == \A i \in DOMAIN k : ValidCode(al, k[i])
 SmallPow(b, k) == b >= 1 /\ k >= 2 /\ k <= 6 /\ Pow(b, k) < 100000000
+Dom_IntForm(i, f) == f \in IntForms /\ (UnsignedForm(f) => i >= 0)
 
 DomOK(e, a) ==
   CASE e.op = "construct" -> a[1] \in {"nuc", "prot"} \/ Dom_Alphabet(a[2])
     [] e.op \in {"encode", "decode", "encode_multiple", "decode_multiple"} -> Dom_Alphabet(a[1])
     [] e.op = "extends" -> Dom_Alphabet(a[1]) /\ Dom_Alphabet(a[2])
     [] e.op = "map" -> Dom_Alphabet(a[1]) /\ Dom_Alphabet(a[2]) /\ Dom_Mapper(a[1], a[2]) /\ ValidCodes(a[1], a[3])
-    [] e.op = "setmany" -> Resolve(a[1], Len(S.codes)).ok /\ Len(Resolve(a[1], Len(S.codes)).pos) = Len(a[2])
+    [] e.op = "setsym" -> Len(a) = 3 /\ Dom_IntForm(a[1], a[3])
+    [] e.op = "indep" -> Dom_Indep(S, a) /\ Dom_Alphabet(IF a[1] = "add" THEN a[2][1] ELSE S.alph)
+                         /\ Len(a[4]) = 3 /\ Dom_IntForm(a[4][1], a[4][3])
+    [] e.op = "setmany" -> Dom_Form(a[1]) /\ Resolve(a[1], Len(S.codes)).ok /\ Len(Resolve(a[1], Len(S.codes)).pos) = Len(a[2])
                            /\ ~HasDup(Resolve(a[1], Len(S.codes)).pos)
     [] e.op = "setcode" -> ValidCodes(S.alph, a[1])
     [] e.op = "add" -> Dom_Alphabet(a[1]) /\ AllIn(a[1], a[2])
     [] e.op = "eq" -> AllIn(S.alph, a[1])
-    [] e.op = "get" -> a[1][1] # "mask" \/ Len(a[1][2]) = Len(S.codes)
+    [] e.op = "get" -> Dom_Form(a[1]) /\ (a[1][1] # "mask" \/ Len(a[1][2]) = Len(S.codes))
     [] e.op = "complement" -> S.kind = "nuc"
     [] e.op = "translate" -> Len(a[2]) = 64 /\ (\A i \in DOMAIN a[1] : a[1][i] \in 0..3)
                              /\ (\A i \in 1..64 : a[2][i] \in 0..23) /\ a[4] \subseteq 0..63
@@ -41,6 +45,10 @@ DomOK(e, a) ==
     [] e.op = "table" -> Len(a[1]) = 64 /\ a[2] \subseteq 0..63
     [] e.op \in {"fuse", "split"} -> SmallPow(a[1], a[2])
     [] e.op \in {"kencode", "kdecode"} -> Dom_Alphabet(a[1]) /\ SmallPow(Len(a[1]), a[2])
+    [] e.op \in {"fuse_d", "split_d"} -> Dom_KmerWidth(a[1], a[2])
+    [] e.op \in {"kencode_d", "kdecode_d"} -> Dom_Alphabet(a[1]) /\ Dom_KmerWidth(Len(a[1]), a[2])
+    [] e.op = "kmers_d" -> Dom_KmerWidth(a[1], a[2]) /\ (a[3] = <<>> \/ Len(a[3][1]) = a[2])
+                           /\ Dom_Kmers(a[1], a[2], a[3], a[4])
     [] e.op = "kmers" -> SmallPow(a[1], a[2]) /\ (a[3] = <<>> \/ Len(a[3][1]) = a[2])
                          /\ Dom_Kmers(a[1], a[2], a[3], a[4])
     [] OTHER -> TRUE
@@ -53,7 +61,7 @@ OutMatches(e, exp, got) ==
     [] op = "big_seq" -> got = exp
     [] op \in {"str", "len", "eq", "copy", "isvalid", "encode", "decode", "encode_multiple",
                "decode_multiple", "extends", "map", "translate", "fuse", "split", "kmers",
-               "kencode", "kdecode"} -> got = exp
+               "kencode", "kdecode", "indep", "fuse_d", "split_d", "kencode_d", "kdecode_d", "kmers_d"} -> got = exp
     [] op = "get" -> IF e.a[1][1] = "int" THEN got = exp ELSE TRUE      \* scalar index: the symbol
     [] OTHER -> TRUE
 
